@@ -118,6 +118,8 @@ class SafetyMonitor(Monitor):
     def after_event(self, st, action, ns):
         ex = self.ex
         r = ns.result
+        for w in ns.sw or ():
+            ex.report('C17', 'inside %s: %s' % (action[0], w), ns)
         if r.startswith('panic'):
             ex.report('C06', 'panic in %s: %s' % (action[0], r[6:120]), ns)
             if action[0] == 'abort' or (action[0] == 'history' and ns.dv.aborted):
